@@ -21,8 +21,12 @@ VERIF = os.path.dirname(os.path.dirname(os.path.abspath(__file__)))
 REPO = os.environ.get("VERIF_REPO", "/repo")
 SPEC = os.path.join(VERIF, "spec")
 HARNESS = os.path.join(VERIF, "harness")
-EVIDENCE = os.path.join(VERIF, "evidence")
-REPLAYS = os.path.join(VERIF, "replays")
+# Development aid (seeded-defect runs in parallel scratch worktrees): VERIF_REPO points the harness
+# build at another checkout; evidence and replays then go to VERIF_OUT, never to /verif/evidence.
+_ALT = os.path.realpath(REPO) != "/repo"
+_OUT = os.environ.get("VERIF_OUT") or (tempfile.mkdtemp(prefix="vf-out-") if _ALT else VERIF)
+EVIDENCE = os.path.join(_OUT, "evidence")
+REPLAYS = os.path.join(_OUT, "replays")
 KNOWN = os.path.join(VERIF, "known_findings.json")
 TLA_CP = "/opt/veriftools/tla/tla2tools.jar:/opt/veriftools/tla/CommunityModules-deps.jar"
 
@@ -96,7 +100,16 @@ def build_harness(race=False):
         cmd.append("-race")
     cmd.append("./cmd/vfh")
     t0 = time.time()
-    p = subprocess.run(cmd, cwd=HARNESS, env=goenv({"CGO_ENABLED": "1" if race else "0"}),
+    hdir = HARNESS
+    if _ALT:
+        hdir = os.path.join(scratch(), "harness-src")
+        if not os.path.exists(hdir):
+            shutil.copytree(HARNESS, hdir)
+            with open(os.path.join(hdir, "go.mod")) as f:
+                gm = f.read()
+            with open(os.path.join(hdir, "go.mod"), "w") as f:
+                f.write(gm.replace("=> /repo", "=> " + os.path.realpath(REPO)))
+    p = subprocess.run(cmd, cwd=hdir, env=goenv({"CGO_ENABLED": "1" if race else "0"}),
                        stdout=subprocess.PIPE, stderr=subprocess.STDOUT, text=True)
     if p.returncode != 0:
         raise Infra("harness build failed:\n" + p.stdout)
